@@ -406,6 +406,62 @@ def check_balance(res, rendezvous, nodes, keys):
             res.violation("unbalanced", "node %r got %d of %d keys (mean %.0f) among %r" % (n, c, len(keys), mean, nodes), ("balance", nodes))
 
 
+def check_threads(res, rendezvous, tier):
+    """Two threads look keys up on ONE hasher (what every thread of an application does through a shared HashClient): the
+    answer for a key depends only on the key and the node set, so it must be the rule's winner whatever the other thread is
+    doing.  Deterministic scheduler, line granularity inside RendezvousHash, every schedule with <= P preemptions; the
+    hasher is fresh or has just had its node set changed (lazily built look-up state is then being rebuilt)."""
+    from vk import sched as S
+    S.install(S.codes_of(rendezvous.RendezvousHash), "line")
+    P = 2 if tier == "quick" else 3
+    setups = [("fresh", ["a:1", "b:1", "c:1"], None), ("after-add", ["a:1", "b:1"], ("add", "c:1")),
+              ("after-remove", ["a:1", "b:1", "c:1", "d:1"], ("remove", "b:1")), ("nodes-arg", ["n2:1", "n1:1", "n3:1"], "ctor")]
+    keysets = [(("k1", "k2"), ("k2", "k1")), (("alpha",), ("alpha",)), (("k3", "k3"), ("k4",)), ((b"bytes-key", "k5"), ("k5", b"bytes-key"))]
+    for label, nodes, change in setups:
+        for ka, kb in keysets:
+            final = list(nodes)
+            if isinstance(change, tuple):
+                final = final + [change[1]] if change[0] == "add" else [x for x in final if x != change[1]]
+            want = {k: refs.rendezvous_ref(final, k) for k in ka + kb}
+
+            def make(sch):
+                if change == "ctor":
+                    h = rendezvous.RendezvousHash(nodes=list(nodes))
+                else:
+                    h = rendezvous.RendezvousHash()
+                    for nd in nodes:
+                        h.add_node(nd)
+                    h.get_node("warm-up")
+                    if change:
+                        (h.add_node if change[0] == "add" else h.remove_node)(change[1])
+                got = {0: [], 1: []}
+
+                def prog(t, ks):
+                    def run():
+                        for k in ks:
+                            got[t].append((k, h.get_node(k)))
+                    return run
+
+                def judge(ok, sch_):
+                    for t in (0, 1):
+                        for k, node in got[t]:
+                            res.count("placements_under_concurrency")
+                            if node != want[k]:
+                                return ("two-threads:differs-from-published-rule",
+                                        "thread %d: get_node(%r) -> %r, rule -> %r (nodes %r, %s; other thread looked up %r)"
+                                        % (t, k, node, want[k], final, label, (ka, kb)[1 - t]))
+                    return None
+                return [prog(0, ka), prog(1, kb)], judge
+
+            def on_run(sch):
+                res.count("two_thread_schedules")
+                sig = tuple((i, a, b) for i, a, b, pre in sch.switches)
+                res.case(("threads", label, ka, kb, sig) if sch.switches else None)
+            ex, exhaustive, bad = S.explore_threads(make, 2, P, 300 if tier == "quick" else 6000, on_run)
+            if bad:
+                res.violation(bad[0], bad[1] + " ; schedule %r" % (sorted(bad[2].items(), key=repr),), ("threads", label))
+
+
 def shard(tier, seed, idx, n):
     res = common.Result()
     from pymemcache.client import rendezvous
@@ -447,6 +503,9 @@ def shard(tier, seed, idx, n):
         for nodes in NODESETS[1:]:
             check_balance(res, rendezvous, nodes, big)
             res.case(("balance", tuple(nodes)))
+    work += 1
+    if work % n == idx:
+        check_threads(res, rendezvous, tier)
     res.extra["exhaustive"] = True
     res.extra["exhaustive_part"] = "all permutations of node sets up to %d nodes; all add/remove histories up to length %d" % (
         (5, 4) if tier == "quick" else (6, 5))
@@ -465,6 +524,8 @@ def replay(case):
         check_set(res, rendezvous, list(nodes), [k], hname, "quick", random.Random(0), label)
     elif case[0].startswith("hc"):
         check_hashclient(res, "quick", random.Random(5))
+    elif case[0] == "threads":
+        check_threads(res, rendezvous, "quick")
     elif case[0] == "digests":
         check_processes(res, corpus(400, random.Random(11)), 8)
     res.case(case)
